@@ -24,7 +24,7 @@ from typing import Any
 from sim import corpus, histsim, kit, project, runner
 
 PROP = "C07"
-FAMILY = {"model": 1000}  # finite scenario family (members are independent of VERIF_SEED); corpus family = cases x 2
+FAMILY = {"model": 1000, "cyc": 240}  # finite scenario family (members are independent of VERIF_SEED); corpus family = cases x 2
 SEQ_FLAGS = ["--native-parser"]
 
 
@@ -273,9 +273,35 @@ def gen_corpus(k: int, tier: str) -> dict[str, Any]:
     return scn
 
 
+CYC_BASE = 700000
+
+
+def gen_cyc(k: int) -> dict[str, Any]:
+    """Hand-shaped members: two or three disjoint import cycles below one entry module, a store with two or three
+    shards and two or three workers, so that different workers write the records of multi-module SCCs into the
+    same shards at the same time; four schedule seeds per project. Every module has an error in a function
+    body (reported by the implementation phase)."""
+    proj, sched = divmod(k, 4)
+    rng = kit.family_rng(PROP, "cyc", proj)
+    files: dict[str, str] = {}
+    roots = []
+    for c in range(rng.choice([2, 2, 3])):
+        size = rng.choice([2, 2, 3])
+        names = [f"{rng.choice('pqrstuvw')}{rng.choice('abcdefgh')}{c}{j}" for j in range(size)]
+        for j, name in enumerate(names):
+            nxt = names[(j + 1) % size]
+            files[name + ".py"] = f"import {nxt}\ndef f{j}() -> int:\n    return {nxt}.f{(j + 1) % size}() + ''\n"
+        roots.append(names[0])
+    files["main.py"] = "".join(f"import {r}\n" for r in roots)
+    cfg = {"store": "sqlite", "shards": rng.choice([2, 2, 3]), "format": "ff"}
+    srng = kit.family_rng(PROP, "cyc-sched", k)
+    return {"files": files, "argv": ["main.py"], "config": cfg, "steps": [], "mode": "cold", "cyc": proj,
+            "par": {"workers": rng.choice([2, 2, 3]), "sched_seed": srng.randrange(1 << 30), "policy": srng.choice(POLICIES)}}
+
+
 def task(item: tuple[int, str]) -> dict[str, Any]:
     k, tier = item
-    scn = gen_corpus(k - 500000, tier) if k >= 500000 else gen(k, tier)
+    scn = gen_cyc(k - CYC_BASE) if k >= CYC_BASE else gen_corpus(k - 500000, tier) if k >= 500000 else gen(k, tier)
     r = evaluate(scn, f"s{k}")
     info = r["info"]
     p = info.get("par") or {}
@@ -291,18 +317,18 @@ def task(item: tuple[int, str]) -> dict[str, Any]:
         "decisions": p.get("n_decisions", 0),
     }
     if len(p.get("workers_used") or []) >= 2:
-        out["nontrivial"] = [kit.digest([scn.get("project") or scn.get("case"), scn["steps"], scn["par"], scn["mode"]])]
+        out["nontrivial"] = [kit.digest([scn.get("project") or scn.get("case") or scn.get("files"), scn["steps"], scn["par"], scn["mode"]])]
         out["probes"]["schedules_with_2plus_active_workers"] = 1
     if "case" in scn:
         out["faults"]["source_corpus"] = 1
     if k % 40 == 0 and "project" in scn:
         out["sample"] = {"config": scn["config"], "mode": scn["mode"], "par": scn["par"], "modules": sorted(scn["project"]["mods"]), "roots": scn["project"]["roots"], "decisions": p.get("n_decisions")}
-    elif k >= 500000 and k % 100 == 0:
+    elif CYC_BASE > k >= 500000 and k % 100 == 0:
         out["sample"] = {"case": scn["case"], "mode": scn["mode"], "par": scn["par"], "decisions": p.get("n_decisions")}
     if info.get("par_error"):
         raise kit.HarnessError("scheduler summary failed: " + info["par_error"])
     if r["violation"] is not None:
-        out["violation"] = {"scenario": scn, "violation": r["violation"], "script": p.get("decisions"), "family": "corpus" if k >= 500000 else "model", "k": k}
+        out["violation"] = {"scenario": scn, "violation": r["violation"], "script": p.get("decisions"), "family": "cyc" if k >= CYC_BASE else "corpus" if k >= 500000 else "model", "k": k}
     return out
 
 
@@ -412,6 +438,9 @@ def run(tier: str) -> int:
         raise kit.HarnessError(f"determinism self-test failed: {bad[:3]}")
     n_corpus = 60 if tier == "quick" else len(par_cases())
     items = [(k, tier) for k in kit.sample_indices(PROP, "model", FAMILY["model"], n)] + [(500000 + k, tier) for k in kit.sample_indices(PROP, "corpus", len(par_cases()), n_corpus)]
+    items += [(CYC_BASE + k, tier) for k in kit.sample_indices(PROP, "cyc", FAMILY["cyc"], 40 if tier == "quick" else FAMILY["cyc"])]
+    if os.environ.get("VERIF_C07_ONLY") == "cyc":
+        items = [it_ for it_ in items if it_[0] >= CYC_BASE]
     results, skipped = kit.run_pool(task, items, budget_s=900 if tier == "quick" else 3 * 3600)
     results.sort(key=lambda r: r["k"])
     by_class: dict[str, list[dict[str, Any]]] = {}
